@@ -65,4 +65,14 @@ structure Env (ω : Type) where
   g12 : Py.FloatLit → String
   strL : List PP.Tree → String
 
+/-- `G(args)` for a slot `G`: the arguments have been evaluated; calling `None` is a TypeError ("'NoneType' object is not callable"), otherwise
+    the request is made -/
+def call {ω α} (slot : Option Py.ClassId) (request : Py.MS ω α) : Py.MS ω α :=
+  match slot with
+  | none => throw (.fault "TypeError")
+  | some _ => request
+
+@[simp] theorem call_some {ω α} (k : Py.ClassId) (request : Py.MS ω α) : call (some k) request = request := rfl
+@[simp] theorem call_none {ω α} (request : Py.MS ω α) : call none request = throw (.fault "TypeError") := rfl
+
 end Dsd.RL
